@@ -30,7 +30,9 @@ FN_FEATURES = ['EXTMATCH', 'BRACE', 'SPLIT', 'NEGATE', 'MINUSNEGATE', 'NEGATEALL
                'CASE', 'FORCEUNIX']
 GL_FEATURES = FN_FEATURES + ['GLOBTILDE', 'GLOBSTAR', 'NODOTDIR', 'GLOBSTARLONG']
 DRIVES = ['c:/', 'C:', '//host/share/', '//?/UNC/h/s/', '//?/c:/', '//./Volume{b75e2c83-0000-0000-0000-602f00000000}/',
-          '//?/GLOBAL/c:/', '//?/GLOBAL/UNC/h/s/', '//host/sh*re/', '//ho[s]t/share/', '//srv/sh?re/', '//a/[bc]/', '//?/c:*', '//srv/sh*']
+          '//?/GLOBAL/c:/', '//?/GLOBAL/UNC/h/s/', '//host/sh*re/', '//ho[s]t/share/', '//srv/sh?re/', '//a/[bc]/', '//?/c:*', '//srv/sh*',
+          '//?/UNC/ser*ver/share/', '//?/unc/ser*ver/sh?re/', '//?/GLOBAL/UNC/h[s]/s/', '//./Unc/a*/b/', '//?/Global/c:/', '//?/UNC/(a)/!b/',
+          '//?/GLOBAL/Unc/a-b/~c/', '//./UNC/h/s*/']
 
 
 def subsets(features, idx, rng):
